@@ -97,6 +97,20 @@ def freshStep (cfg : Cfg) (k : Kind) (L : Layout) (h : Hints) (r : State × Exce
     | some (v, s'') => pure (s'', .ok v)
     | none => throw (.ub "unreachable_unchecked: the layout does not fit the chunk that was created for it")
 
+/-- what `inAnotherChunk` does with the result of `appendFor` when it started in chunk `i`: a failed
+    request leaves chunk `i` current (fix c107ca6), a new chunk is entered by `freshStep` -/
+def appendStep (cfg : Cfg) (k : Kind) (L : Layout) (h : Hints) (i : Nat) (r : State × Except AErr Nat) :
+    R (State × Except AErr (Nat × Nat)) :=
+  match r with
+  | (s'', .error e) => pure ({ s'' with cur := .chunk i }, .error e)
+  | r => freshStep cfg k L h r
+
+theorem appendStep_error (cfg : Cfg) (k : Kind) (L : Layout) (h : Hints) (i : Nat) (s1 : State) (e : AErr) :
+    appendStep cfg k L h i (s1, .error e) = .ok ({ s1 with cur := .chunk i }, .error e) := rfl
+
+theorem appendStep_ok (cfg : Cfg) (k : Kind) (L : Layout) (h : Hints) (i : Nat) (s1 : State) (idx : Nat) :
+    appendStep cfg k L h i (s1, .ok idx) = freshStep cfg k L h (s1, .ok idx) := rfl
+
 theorem inAnotherChunk_eq (cfg : Cfg) (k : Kind) (s : State) (L : Layout) (h : Hints) :
     inAnotherChunk cfg k s L h =
       match s.cur with
@@ -105,8 +119,8 @@ theorem inAnotherChunk_eq (cfg : Cfg) (k : Kind) (s : State) (L : Layout) (h : H
       | .chunk i => walkNext cfg k L h (s.chunks.length - (i+1)) i s >>= fun w =>
           match w with
           | (some (v, s'), _) => pure (s', .ok v)
-          | (none, s') => appendFor cfg s' L >>= freshStep cfg k L h := by
-  unfold inAnotherChunk freshStep
+          | (none, s') => appendFor cfg s' L >>= appendStep cfg k L h i := by
+  unfold inAnotherChunk freshStep appendStep freshStep
   rfl
 
 /-- the current chunk stays or moves forward to an existing chunk -/
@@ -152,7 +166,7 @@ structure SlowFrame (cfg : Cfg) (s s' : State) {α : Type} (r : Except AErr α) 
   ext : ∀ n, (∀ i, s.cur = .chunk i → n ≤ i + 1) → Ext n s s'
   reqs : s'.reqs = s.reqs ∨ ∃ size, s'.reqs = s.reqs ++ [BaseReq.alloc size cfg.hdr.align]
   resps : s'.resps = s.resps ∨ ∃ x, s.resps = x :: s'.resps
-  err : ∀ e, r = .error e → s'.chunks.length = s.chunks.length ∧ CurAdv s s' ∧
+  err : ∀ e, r = .error e → s'.chunks.length = s.chunks.length ∧ s'.cur = s.cur ∧
     (e ≠ .alloc → s'.reqs = s.reqs ∧ s'.resps = s.resps) ∧ (e = .claimed ↔ s.cur = .claimed)
   claimed : s.cur = .claimed → s' = s
 
